@@ -453,7 +453,7 @@ def run_impl(case, pid):
 
     def state_line():
         tab = {p_: v_ for p_, v_ in server.table().items() if not untracked(p_)}
-        zk = ','.join('%d:%d.%d:%s' % ((names(p),) + encode_payload(d) + (o if o is not None else '-',))
+        zk = ','.join('%d:%d.%d:%s' % ((names(p),) + encode_payload(d) + (fz.short_session(o) if o is not None else '-',))
                       for p, (d, o) in sorted(tab.items(), key=lambda kv: names(kv[0]))) or '-'
         svs = []
         for p in procs:
@@ -465,7 +465,7 @@ def run_impl(case, pid):
             if p.busy and p.pending and untracked(p.pending[1]):
                 nxt = '*'
             svs.append('sv%d=%s/%s/%s/%s/%s/%s' % (
-                p.idx, p.client.session, nxt, p.res, '+'.join(pres) or '-',
+                p.idx, fz.short_session(p.client.session), nxt, p.res, '+'.join(pres) or '-',
                 '+'.join(str(x) for x in sorted(names(w) for w in _live_watches(p.client))) or '-',
                 '+'.join(str(x) for x in sorted(_rnum(r) for r in p.retries)) or '-'))
         return 'zk=%s %s' % (zk, ' '.join(svs))
